@@ -1372,3 +1372,27 @@ B('split-predicate-tried-on-the-first-element', ['C18'], ['C18-R2'],
 B('cache-mapping-behind-a-view', ['C14'], ['C14-R4'],
   (A, "    _cache: _CacheMap = cache if cache is not None else {}\n", "    _cache: _CacheMap = _View(cache if cache is not None else {})\n"),
   (A, "E = TypeVar('E', bound=BaseException)\n", "class _View(dict):  # type: ignore\n    def __init__(self, inner: Any) -> None:\n        super().__init__()\n        self.inner = inner\n\n\nE = TypeVar('E', bound=BaseException)\n"))
+
+# --- guarded extension hooks (benign wave 11): the helper that calls them is expanded with the hook it was handed -------
+_HOOK_HELPER = ("    def _call_hook(self, hook: Any, *args: Any, default: Any = None) -> Any:\n        try:\n            return hook(*args)\n"
+                "        except Exception:  # noqa\n            logger.exception('Ignoring error in hook %r', hook)\n            return default\n\n")
+T('buf-guarded-noop-hooks', ['C03', 'C07', 'C08'],
+  (A, "            if inputs:  # Could be empty if all empty iterators\n                await self.func(inputs)\n",
+      "            if inputs:  # Could be empty if all empty iterators\n                self._call_hook(self._on_batch_start, len(inputs))\n                await self.func(inputs)\n"),
+  (A, "    def _schedule_with_timeout(self, coro: Awaitable[X]) -> 'aio.Task[X]':\n",
+      _HOOK_HELPER + "    def _on_batch_start(self, size: int) -> None:\n        \"\"\"Called right before the function is awaited.\"\"\"\n\n"
+      "    def _schedule_with_timeout(self, coro: Awaitable[X]) -> 'aio.Task[X]':\n"))
+B('buf-hook-marks-the-run-done', ['C03'], ['C03-S3'],
+  (A, "            if inputs:  # Could be empty if all empty iterators\n                await self.func(inputs)\n",
+      "            if inputs:  # Could be empty if all empty iterators\n                self._call_hook(self._on_batch_start, len(inputs))\n                await self.func(inputs)\n"),
+  (A, "    def _schedule_with_timeout(self, coro: Awaitable[X]) -> 'aio.Task[X]':\n",
+      _HOOK_HELPER + "    def _on_batch_start(self, size: int) -> None:\n        self.event.set()\n\n"
+      "    def _schedule_with_timeout(self, coro: Awaitable[X]) -> 'aio.Task[X]':\n"))
+T('bridge-worker-guarded-hook', ['C17'],
+  (A, "    def _loop_thread() -> T:\n        with _get_loop_lock(loop):\n            aio.set_event_loop(loop)\n",
+      "    def _loop_thread() -> T:\n        with _get_loop_lock(loop):\n            _run_hook(_on_loop_thread_start, loop)\n            aio.set_event_loop(loop)\n"),
+  (A, "async def run_aw_threadsafe(", "def _run_hook(hook: Any, *args: Any) -> None:\n    try:\n        hook(*args)\n    except Exception:\n        logger.exception('Ignoring error raised by hook %r', hook)\n\n\n"
+      "def _on_loop_thread_start(loop: Loop) -> None:\n    \"\"\"Does nothing by default.\"\"\"\n\n\nasync def run_aw_threadsafe("))
+B('bridge-worker-swallows-the-failure', ['C17'], ['C17-R4'],
+  (A, "            aio.set_event_loop(loop)\n            return loop.run_until_complete(aw)\n",
+      "            aio.set_event_loop(loop)\n            try:\n                return loop.run_until_complete(aw)\n            except Exception:\n                logger.exception('awaitable failed')\n                return None  # type: ignore\n"))
